@@ -385,3 +385,98 @@ Proof.
   split. { vm_compute. repeat constructor. }
   repeat split; vm_compute; reflexivity.
 Qed.
+
+(* ---- 2026-10-02: the COMPILER side of regex.c on the translated C text (tools/c2clite.d/72_regex_comp.list; coq/TrRegexComp.v,
+   TrRegexParse.v, TrRegexCount.v, TrRegexEmit.v, TrRegexEmit2.v, TrRegexEmit3.v, TrRegexCompile.v).  struct rnode = 8 cells
+   (ra.ra, ra.s, c1, c2, mincnt, maxcnt, grp, rn); TrRegexComp.tree_in m t lo hi p: the pointer p is the model's tree t, built of the
+   blocks lo..hi-1 of m in allocation order, every other block of that range freed.  Every theorem is an equation
+   callf ... = Ok ...: a load / store / memcpy / free outside a live block is Err EOob, a signed overflow Err EOverflow in CLite. *)
+From NV Require CLiteExt TrRegexComp TrRegexParse TrRegexCount TrRegexEmit TrRegexEmit2 TrRegexEmit3 TrRegexCompile TrRegexRun.
+
+(* the parser: for EVERY pattern string in memory, offset, incoming flag and model fuel f, if the threaded parser model returns
+   Ok ((r, s'), st') then the translated rnode_parse returns the tree r (TrRegexParse.ppost: tree_in for of_opt r in the blocks the call
+   allocated, *pat = the offset where the model stops, re_bad = st', everything a rejected branch allocated freed again, nothing else
+   touched) -- every load inside the pattern and its terminator, the digit accumulation of {m,n} without overflow (it saturates at
+   NREPS+1), call depth 4 * (bytes left) + 8 *)
+Theorem C11_tr_rnode_parse : forall (bl : nat) (pat : bytes) (bpp fuel : nat),
+  nonul pat -> bl <> bpp -> bl <> GenCFuncs.G_re_bad -> length GenCFuncs.cglobals <= bpp ->
+  (Z.of_nat (length pat) < 2147483647)%Z -> length pat + 2 <= fuel -> 4 <= fuel ->
+  forall (f : nat) (m : CLite.mem) (o : nat) (st : bool) (d : nat) (r : option node) (s' : bytes) (st' : bool),
+  TrRegexParse.pmem bl pat bpp m o st -> 4 * (length pat - o) + 8 <= d ->
+  ReStateDefs.rnode_parse_st f (skipn o pat) st = Ok ((r, s'), st') ->
+  exists v m', CLite.callf GenCFuncs.cprog fuel d GenCFuncs.F_rnode_parse [CLite.VPtr bpp 0] m = CLite.Ok (v, m') /\
+    TrRegexParse.ppost bl pat bpp m o r s' st' v m'.
+Proof. exact TrRegexParse.parse_ok. Qed.
+Print Assumptions C11_tr_rnode_parse.
+
+(* rnode_free: the whole range of the tree is freed, nothing else changes (a double free or a free of a wild pointer would be EOob) *)
+Theorem C11_tr_rnode_free : forall (fuel : nat) (t : node) (m : CLite.mem) (lo hi : nat) (p : CLite.val) (d : nat),
+  TrRegexComp.tree_in m t lo hi p -> t <> NNil -> TrRegexComp.height t <= d ->
+  exists m', CLite.callf GenCFuncs.cprog fuel d GenCFuncs.F_rnode_free [p] m = CLite.Ok (CLite.VUndef, m') /\ TrRegexComp.freed m m' lo hi.
+Proof. exact TrRegexComp.tr_rnode_free. Qed.
+Print Assumptions C11_tr_rnode_free.
+
+(* rnode_count on the C text: for every tree the parser can return the translated function returns the model's (saturated) estimate
+   and leaves the memory alone -- NO signed overflow in any of its additions and multiplications (C11_count_no_int_overflow on the C text) *)
+Theorem C11_tr_rnode_count_no_overflow : forall (fuel f : nat) (s : bytes) (t : node) (s' : bytes) (m : CLite.mem) (lo hi : nat) (p : CLite.val) (d : nat),
+  rnode_parse f s = Ok (Some t, s') -> TrRegexComp.tree_in m t lo hi p -> TrRegexComp.height t < d ->
+  CLite.callf GenCFuncs.cprog fuel d GenCFuncs.F_rnode_count [p] m = CLite.Ok (CLite.VInt (count t), m).
+Proof. exact TrRegexRun.tr_rnode_count_parsed. Qed.
+Print Assumptions C11_tr_rnode_count_no_overflow.
+
+Theorem C11_tr_rnode_grpnum : forall (fuel : nat) (t : node) (m : CLite.mem) (lo hi : nat) (p : CLite.val) (num d : nat),
+  TrRegexComp.tree_in m t lo hi p -> (Z.of_nat (num + TrRegexParse.ngrp t) <= 2147483647)%Z -> TrRegexComp.height t < d ->
+  exists m', CLite.callf GenCFuncs.cprog fuel d GenCFuncs.F_rnode_grpnum [p; CLite.VInt (Z.of_nat num)] m
+             = CLite.Ok (CLite.VInt (Z.of_nat (snd (grpnum t num))), m') /\
+    TrRegexComp.tree_in m' (fst (grpnum t num)) lo hi p /\ length m' = length m /\
+    (forall i, i < lo \/ hi <= i -> nth_error m' i = nth_error m i) /\ snd (grpnum t num) = TrRegexParse.ngrp t.
+Proof. exact TrRegexCount.tr_rnode_grpnum. Qed.
+Print Assumptions C11_tr_rnode_grpnum.
+
+(* re_insert: the ONE place where the program grows.  est bre bp N m b cells: block bre = struct regex {p -> bp, n = b, flg}, block bp =
+   the array of N instructions (6 * N cells).  With b < N the store lands in cell 6*b+2 of the array; (with b >= N it would be EOob) *)
+Theorem C11_tr_re_insert : forall (bre bp N fuel : nat), bre <> bp -> (Z.of_nat N <= 1048576)%Z ->
+  forall (m : CLite.mem) (b : nat) (cells : list CLite.val) (ri : Z) (d : nat),
+  TrRegexEmit.est bre bp N m b cells -> b < N -> TrRegexComp.i32 ri ->
+  CLite.callf GenCFuncs.cprog fuel (S d) GenCFuncs.F_re_insert [CLite.VPtr bre 0; CLite.VInt ri] m
+  = CLite.Ok (CLite.VInt (Z.of_nat b),
+              CLiteProps.upd (CLiteProps.upd m bre [CLite.VPtr bp 0; CLite.VInt (Z.of_nat (S b)); CLite.VInt 0]) bp (CLiteProps.upd cells (6 * b + 2) (CLite.VInt ri))) /\
+  TrRegexEmit.est bre bp N (CLiteProps.upd (CLiteProps.upd m bre [CLite.VPtr bp 0; CLite.VInt (Z.of_nat (S b)); CLite.VInt 0]) bp (CLiteProps.upd cells (6 * b + 2) (CLite.VInt ri)))
+    (S b) (CLiteProps.upd cells (6 * b + 2) (CLite.VInt ri)).
+Proof. exact TrRegexEmit.tr_re_insert. Qed.
+Print Assumptions C11_tr_re_insert.
+
+(* C11_emit_fits on the C text: for EVERY tree in memory with counts inside 0..NREPS (eok), when b + nlen t <= N -- the emitted length
+   fits what is left of the allocation -- the translated rnode_emit appends exactly the model's emit_n t b at instruction b
+   (emit_post: the cells hold the code, nothing below 6*b is touched, the atoms' strings in fresh blocks) and EVERY store of the call is
+   inside the 6*N cells of the array and the 128 cells of the local jmpend[] (the heap overflow of the original defect is impossible) *)
+Theorem C11_tr_emit_fits : forall (bre bp N fuel : nat), bre <> bp -> (Z.of_nat N <= 1048576)%Z -> 130 < fuel ->
+  forall (t : node) (m : CLite.mem) (lo hi : nat) (p : CLite.val) (b : nat) (cells : list CLite.val) (d : nat),
+  TrRegexComp.tree_in m t lo hi p -> TrRegexEmit2.eok t -> TrRegexEmit.est bre bp N m b cells -> b + nlen t <= N ->
+  hi <= bre -> hi <= bp -> 2 * TrRegexComp.height t + 2 <= d ->
+  exists m', CLite.callf GenCFuncs.cprog fuel d GenCFuncs.F_rnode_emit [p; CLite.VPtr bre 0] m = CLite.Ok (CLite.VUndef, m') /\
+    TrRegexEmit.emit_post bre bp N m cells b (emit_n t b) m'.
+Proof. exact TrRegexEmit3.emit_ok. Qed.
+Print Assumptions C11_tr_emit_fits.
+
+(* regcomp as a whole, for EVERY pattern string in memory and EVERY value st0 the static flag re_bad had before the call: the C text
+   returns what the threaded model regcomp_st says (C11_regcomp_ignores_stale_flag: = the pure regcomp, the flag afterwards a function
+   of the pattern alone).  rc_result: re_bad = st1; nothing below the old end of memory changes except *preg; rejected: 1 and every
+   block the call malloc'd is freed again; accepted: 0, *preg -> struct regex {p, n, flg = cflg} whose array of rnode_count+3
+   instructions holds the model's program (compiled / code_ok), the parse tree freed *)
+Theorem C11_tr_regcomp : forall (m : CLite.mem) (bl : nat) (pat : bytes) (bpreg : nat) (pv : CLite.val) (cflg : Z) (st0 : bool) (fuel : nat),
+  CLiteProps.str_at m bl pat -> nonul pat -> nth_error m bpreg = Some [pv] -> TrRegexParse.bad_at m st0 -> TrRegexComp.lits_at m ->
+  length GenCFuncs.cglobals <= length m -> bl <> GenCFuncs.G_re_bad -> length GenCFuncs.cglobals <= bpreg -> TrRegexComp.i32 cflg ->
+  (Z.of_nat (length pat) < 1073741820)%Z -> length pat + 2 <= fuel -> 130 < fuel ->
+  forall (d : nat) (res : option prog) (st1 : bool), 4 * length pat + 12 <= d -> ReStateDefs.regcomp_st pat st0 = (Ok res, st1) ->
+  exists m', CLite.callf GenCFuncs.cprog fuel d GenCFuncs.F_regcomp [CLite.VPtr bpreg 0; CLite.VPtr bl 0; CLite.VInt cflg] m
+             = CLite.Ok (CLite.VInt (match res with Some _ => 0 | None => 1 end)%Z, m') /\
+    TrRegexParse.bad_at m' st1 /\ length m < length m' /\
+    (forall j, j < length m -> j <> GenCFuncs.G_re_bad -> j <> bpreg -> nth_error m' j = nth_error m j) /\
+    (exists o, nth_error m' (length m) = Some [CLite.VPtr bl o]) /\
+    match res with
+    | Some p => TrRegexCompile.compiled m' bpreg cflg (code p) (S (length m)) /\ TrRegexParse.atoms_ok pat (tree p) /\ TrRegexEmit2.eok (tree p)
+    | None => nth_error m' bpreg = Some [pv] /\ TrRegexComp.dead m' (S (length m)) (length m')
+    end.
+Proof. exact TrRegexCompile.tr_regcomp. Qed.
+Print Assumptions C11_tr_regcomp.
